@@ -12,6 +12,8 @@ kind:
 tier: 'quick' harnesses run in both tiers, 'thorough' only in the thorough tier.
 """
 
+import re
+
 CATALOG = []
 
 
@@ -115,10 +117,17 @@ def c10():
         w = f"c{sc}_{ec}"
         main = (sc, ec) in [(1, 3), (0, 4)]
         for prefix in (0, 1, 2, 3):
-            q = "quick" if (main and prefix in (0, 3)) or ((sc, ec) == (3, 4) and prefix == 3) else "thorough"
-            add("C10", f"c10_cells_view_{w}_p{prefix}_d2", f"c10::cells_view(4, 3, {sc}, {ec}, {prefix}, 2, 0, 0)", 6, q)
-            add("C10", f"c10_cellsmut_viewmut_{w}_p{prefix}_d2", f"c10::cells_viewmut(4, 3, {sc}, {ec}, {prefix}, 2, 0, 0)", 6, q)
+            # depth 2 is the expensive one (150-400 s): quick keeps it for the interior window from the fresh and the
+            # both-ends-open state, and for the full-width window from the fresh state
+            q2v = "quick" if ((sc, ec) == (1, 3) and prefix in (0, 3)) or ((sc, ec) == (0, 4) and prefix == 0) else "thorough"
+            q2m = "quick" if (sc, ec) == (1, 3) and prefix == 0 else "thorough"
+            add("C10", f"c10_cells_view_{w}_p{prefix}_d2", f"c10::cells_view(4, 3, {sc}, {ec}, {prefix}, 2, 0, 0)", 6, q2v)
+            add("C10", f"c10_cellsmut_viewmut_{w}_p{prefix}_d2", f"c10::cells_viewmut(4, 3, {sc}, {ec}, {prefix}, 2, 0, 0)", 6, q2m)
             add("C10", f"c10_cells_view_{w}_p{prefix}_d3", f"c10::cells_view(4, 3, {sc}, {ec}, {prefix}, 3, 0, 0)", 6, "thorough")
+            # one symbolic step from each partially-consumed state
+            q1 = "quick" if (sc, ec) in [(1, 3), (0, 4), (3, 4)] and prefix != 0 else "thorough"
+            add("C10", f"c10_cells_view_{w}_p{prefix}_d1", f"c10::cells_view(4, 3, {sc}, {ec}, {prefix}, 1, 0, 0)", 6, q1)
+            add("C10", f"c10_cellsmut_viewmut_{w}_p{prefix}_d1", f"c10::cells_viewmut(4, 3, {sc}, {ec}, {prefix}, 1, 0, 0)", 6, q1 if prefix == 3 else "thorough")
         # exhaustive iteration after one symbolic step, one harness per terminal operation
         # (for / reverse / fold / rfold); a 2-row parent keeps the cell count and the unwind bound small
         for xop, xn in ((0, "for"), (1, "rev"), (2, "fold"), (3, "rfold")):
@@ -256,9 +265,9 @@ def c06():
             add("C06", f"c06_{MODES[mode]}_zst_{c}x{r}", f"c06::insert_zst({mode}, {c}, {r})", c * r + 6, "quick" if quick else "thorough", also=["C05"])
     for (c, r) in [(2, 3), (1, 1), (3, 3)]:
         for mode in (0, 2):
-            for what in (0, 1):
-                quick = (c, r) == (2, 3)
-                add("C06", f"c06_{MODES[mode]}_rejected_{'idx' if what == 0 else 'len'}_{c}x{r}", f"c06::insert_rejected({mode}, {c}, {r}, {what})", c * r + 6,
+            for what, wn in ((0, "idx"), (1, "long"), (2, "short"), (3, "none")):
+                quick = (c, r) == (2, 3) and what != 3
+                add("C06", f"c06_{MODES[mode]}_rejected_{wn}_{c}x{r}", f"c06::insert_rejected({mode}, {c}, {r}, {what})", c * r + 6,
                     "quick" if quick else "thorough", kind="panic", also=["C01"])
 
 
@@ -372,11 +381,12 @@ def c01():
         for (c, r) in [(2, 3), (0, 0), (1, 1), (3, 3)]:
             quick = (c, r) in [(2, 3), (0, 0)] and op in (0, 1, 3, 6)
             add("C01", f"c01_{nm}_{c}x{r}", f"c01::inv_only({op}, {c}, {r}, {b(op % 2 == 0)})", 6, "quick" if quick else "thorough")
-    add("C01", "c01_history_regrow_3", "c01::history(0, 3, 1)", 8)
-    add("C01", "c01_history_regrow_1", "c01::history(0, 1, 1)", 8, "thorough")
-    add("C01", "c01_history_empty_cycle", "c01::history(1, 0, 0)", 8)
-    add("C01", "c01_history_popcols_2x2", "c01::history(2, 2, 2)", 8)
-    add("C01", "c01_history_popcols_3x1", "c01::history(2, 3, 1)", 8, "thorough")
+    for (c, a) in [(3, 2), (3, 0), (1, 3), (2, 4), (3, 3)]:
+        add("C01", f"c01_history_regrow_{c}_to_{a}", f"c01::history(0, {c}, 1, {a}, 0)", 8, "quick" if (c, a) in [(3, 2), (3, 0)] else "thorough")
+    for (a, bb) in [(2, 3), (1, 0), (3, 1), (2, 2)]:
+        add("C01", f"c01_history_empty_cycle_{a}_{bb}", f"c01::history(1, 0, 0, {a}, {bb})", 8, "quick" if (a, bb) in [(2, 3), (1, 0)] else "thorough")
+    for (c, r, a) in [(2, 2, 3), (3, 1, 1), (1, 3, 2)]:
+        add("C01", f"c01_history_popcols_{c}x{r}_then_{a}", f"c01::history(2, {c}, {r}, {a}, 0)", 8, "quick" if (c, r) == (2, 2) else "thorough")
     add("C01", "c01_base", "c01::base()", 4, also=["C20"])
 
 
@@ -594,10 +604,21 @@ def engb():
 engb()
 
 
+# C01's step obligations are shared with the other owned-array properties; its quick tier takes one
+# representative per operation (the full set runs in the thorough tier and in the owners' own quick tiers)
+C01_QUICK = re.compile(
+    r"c01_|c06_(insert_row|insert_col)_tok_2x3_|c06_push_(row|col)_into_empty_len1|c06_insert_(row|col)_into_empty_len[02]_s0|c06_insert_row_rejected_(idx|long)_2x3|c06_insert_col_rejected_(idx|short)_2x3|"
+    r"c07_remove_(row|col)_tok_(2x3|1x1)|c07_pop_empty|c07_remove_(row|col)_rejected_2x3|c13_(swap|swap_rows|swap_cols|fill|indexmut)_owned_2x3|c13_swap_rows_rejected_owned_2x3|"
+    r"c05_(clear|fill|overwrite)_2x2|c14_copy_from_(slice|owned)_owned_2x3|c15_translate_owned_3x3_mr1|c16_sort_by_row_owned_3x2_l1|c17_sort_by_col_owned_2x3_l1|c20_rejected_(new|init|from_vec|from_box)|"
+    r"c20_contents_(new|init|from_vec|from_box)_2x3|c20_contents_from_vec_0x0")
+
+
 def select(prop, tier):
     out = []
     for h in CATALOG:
         if prop not in h.props():
+            continue
+        if prop == "C01" and tier == "quick" and h.prop != "C01" and not C01_QUICK.match(h.name):
             continue
         if h.tier == "native":
             continue
